@@ -62,6 +62,7 @@ type Client struct {
 	invHandlers       map[wamp.ID]InvocationHandler
 	invHandlersQueues map[clientInvocation]chan *wamp.Invocation
 	invHandlersCtxs   map[clientInvocation]context.Context
+	invHandlersFinal  map[clientInvocation]struct{}
 	nameProcID        map[string]wamp.ID
 	invHandlerKill    map[wamp.ID]context.CancelFunc
 	progGate          map[wamp.ID]struct{}
@@ -285,6 +286,7 @@ func NewClient(p wamp.Peer, cfg Config) (*Client, error) {
 		invHandlers:       map[wamp.ID]InvocationHandler{},
 		invHandlersQueues: map[clientInvocation]chan *wamp.Invocation{},
 		invHandlersCtxs:   map[clientInvocation]context.Context{},
+		invHandlersFinal:  map[clientInvocation]struct{}{},
 		nameProcID:        map[string]wamp.ID{},
 		invHandlerKill:    map[wamp.ID]context.CancelFunc{},
 		progGate:          map[wamp.ID]struct{}{},
@@ -1586,6 +1588,7 @@ func (c *Client) cleanupInvHandlersQueue(cliInvocation clientInvocation) {
 	}
 	delete(c.invHandlersQueues, cliInvocation)
 	delete(c.invHandlersCtxs, cliInvocation)
+	delete(c.invHandlersFinal, cliInvocation)
 
 	c.sess.Unlock()
 	// Drain chan in case anyone is blocked.
@@ -1719,11 +1722,30 @@ func (c *Client) runHandleInvocation(msg *wamp.Invocation) {
 			ctx = context.WithValue(ctx, invocationIDCtxKey{}, reqID)
 		}
 	} else {
+		if _, final := c.invHandlersFinal[cliInvocation]; final {
+			// The last chunk of this invocation is already with the handler:
+			// this is a repeated INVOCATION, not a continuation of a
+			// progressive call.
+			c.sess.Unlock()
+			if c.debug {
+				c.log.Println("Ignoring repeated Invocation reqID=", reqID)
+			}
+			return
+		}
 		c.sess.UpdateLastRecvIDLocked(reqID)
+	}
+	if isInProgress, _ := msg.Details[wamp.OptProgress].(bool); !isInProgress {
+		c.invHandlersFinal[cliInvocation] = struct{}{}
 	}
 	c.sess.Unlock()
 
-	handlerQueue <- msg
+	// The handler may still be busy with an earlier chunk. Wait for it, but
+	// not once the client is being closed.
+	select {
+	case handlerQueue <- msg:
+	case <-c.sess.RecvDone():
+		return
+	}
 
 	if !queueExists {
 		// Start a goroutine to run the user-defined invocation handler.
